@@ -380,4 +380,92 @@ def run(ctx) -> list[Inst]:
                     msg=(f"grammar rule '{rname}' can contain '{sym}' but {vname} never reads ctx.{sym}(): "
                          f"that part of the source does not reach the specification"),
                     file=rel, line=f.node.lineno, props=PROPS))
+    insts += _classification(ctx, visitor, rel)
+    insts += _dedupe(ctx, visitor, rel)
     return insts
+
+
+def _classification(ctx, visitor, rel):
+    """(e) only the last component of a REACHES expression may become an attackStep: the upward walk of
+    _resolve_part_ID_type stops at ReachesContext and at nothing else (requires / let yield fields)."""
+    f = visitor.methods.get('_resolve_part_ID_type')
+    construct = '(e) field-vs-step classification walks up to a reaches context only'
+    if f is None:
+        return [Inst(RULE, 'malVisitor', construct, 'unproven', msg='_resolve_part_ID_type not found', file=rel,
+                     line=visitor.node.lineno, props=PROPS)]
+    stops = None
+    for n in own_nodes(f.node):
+        if isinstance(n, ast.While):
+            for c in ast.walk(n.test):
+                if isinstance(c, ast.Call) and isinstance(c.func, ast.Name) and c.func.id == 'isinstance' and len(c.args) == 2:
+                    t = c.args[1]
+                    elts = t.elts if isinstance(t, ast.Tuple) else [t]
+                    stops = sorted(stmt_text(e).split('.')[-1] for e in elts)
+    if stops is None:
+        return [Inst(RULE, f.short, construct, 'unproven', msg='upward walk not recognised', file=rel,
+                     line=f.node.lineno, props=PROPS)]
+    if stops == ['ReachesContext']:
+        return [Inst(RULE, f.short, construct, 'ok', file=rel, line=f.node.lineno, props=PROPS)]
+    return [Inst(
+        RULE, f.short, construct, 'violation',
+        msg=(f"the walk towards the enclosing clause stops at {stops}: names in a clause other than a reaches "
+             f"clause ('<-' requirements, let bodies) get classified as attackStep, although only the last "
+             f"component of a reaches expression names an attack step"),
+        file=rel, line=f.node.lineno, props=PROPS)]
+
+
+def _dedupe(ctx, visitor, rel):
+    """(f) declarations merged from included files are de-duplicated by whole-declaration equality; a
+    key built from some of a declaration's entries drops distinct declarations that agree on them."""
+    f = visitor.methods.get('visitMal')
+    construct = '(f) included declarations are de-duplicated by whole-declaration equality'
+    if f is None:
+        return []
+    out = []
+    # keys a declaration dict can carry (from the visit methods that build them)
+    full = set()
+    for mn in ('visitAssociation', 'visitAsset', 'visitCategory'):
+        m = visitor.methods.get(mn)
+        if m is None:
+            continue
+        for n in own_nodes(m.node):
+            if isinstance(n, ast.Assign) and isinstance(n.targets[0], ast.Subscript) \
+                    and isinstance(n.targets[0].slice, ast.Constant):
+                full.add(n.targets[0].slice.value)
+    found = False
+    for n in own_nodes(f.node):
+        if isinstance(n, ast.For) and isinstance(n.target, ast.Name):
+            item = n.target.id
+            for t in ast.walk(n):
+                if isinstance(t, ast.Compare) and len(t.ops) == 1 and isinstance(t.ops[0], (ast.In, ast.NotIn)):
+                    left = t.left
+                    if isinstance(left, ast.Name) and left.id == item:
+                        found = True
+                        out.append(Inst(RULE, f.short, construct, 'ok', msg=f"'{stmt_text(t)}'", file=rel,
+                                        line=t.lineno, props=PROPS))
+                    elif isinstance(left, ast.Name):
+                        # a key variable: which entries of the item does it use?
+                        used = set()
+                        for a in ast.walk(n):
+                            if isinstance(a, ast.Assign) and any(isinstance(x, ast.Name) and x.id == left.id for x in a.targets):
+                                for s in ast.walk(a.value):
+                                    if isinstance(s, ast.Subscript) and isinstance(s.value, ast.Name) and s.value.id == item \
+                                            and isinstance(s.slice, ast.Constant):
+                                        used.add(s.slice.value)
+                                    if isinstance(s, ast.Call) and isinstance(s.func, ast.Attribute) and s.func.attr == 'get' \
+                                            and isinstance(s.func.value, ast.Name) and s.func.value.id == item and s.args \
+                                            and isinstance(s.args[0], ast.Constant):
+                                        used.add(s.args[0].value)
+                        if used and used < full:
+                            found = True
+                            out.append(Inst(
+                                RULE, f.short, construct, 'violation',
+                                msg=(f"'{stmt_text(t)}' identifies a declaration by {sorted(used)} only, a declaration "
+                                     f"also carries {sorted(full - used)[:6]}...: two different declarations that agree "
+                                     f"on those entries (same-named associations between other asset types) are "
+                                     f"merged into one"),
+                                file=rel, line=t.lineno, props=PROPS))
+    if not found:
+        out.append(Inst(RULE, f.short, construct, 'unproven', msg='de-duplication idiom not recognised', file=rel,
+                        line=f.node.lineno, props=PROPS))
+    return out
